@@ -215,6 +215,83 @@ def name_pass_set_hir(facts, fid):
     return None
 
 
+def _pat_bytes(p):
+    if p[0] == "lit":
+        return {p[1]} if isinstance(p[1], int) else set()
+    if p[0] == "or":
+        out = set()
+        for q in p[1]:
+            out |= _pat_bytes(q)
+        return out
+    if p[0] == "range":
+        lo = p[1][1] if p[1] and p[1][0] == "lit" else 0
+        hi = p[2][1] if p[2] and p[2][0] == "lit" else 255
+        return set(range(lo, (hi + 1) if p[3] else hi))
+    if p[0] in ("_", "bind"):
+        return set(range(256))
+    return set(range(256))
+
+
+def _walk(e, f):
+    if isinstance(e, list):
+        f(e)
+        for x in e:
+            _walk(x, f)
+    elif isinstance(e, dict):
+        for x in e.values():
+            _walk(x, f)
+
+
+def name_pass_set_match(facts, fid):
+    """pass-through set of a name escaper written as `match byte { pats => "#XX", range => push(byte), _ => "#XX" }` (arms in
+    order; a guarded arm may fall through, so its bytes stay available to later arms while still counting for its own body).
+    A byte is passed through by an arm whose body pushes the scrutinee itself or a literal equal to the byte. None when the
+    function has no byte match."""
+    best = None
+    for f in L.group(facts, fid):
+        for m in facts.matches.get(f.id, []):
+            if m["sty"] not in ("u8", "char", "&u8"):
+                continue
+            scrut = m["scrut"][1].get("local") if m["scrut"] and m["scrut"][0] == "path" and isinstance(m["scrut"][1], dict) else None
+            remaining = set(range(256))
+            passed = set()
+            shaped = False
+            for arm in m["arms"]:
+                pats = _pat_bytes(arm["pat"]) & remaining
+                raw_all = [False]
+                raw_lits = set()
+                escapes = [False]
+
+                def visit(e):
+                    if not e or not isinstance(e[0], str):
+                        return
+                    if e[0] == "mcall" and e[1] in ("push", "push_str", "extend_from_slice", "write_all", "extend"):
+                        def arg(a):
+                            if a and a[0] == "path" and isinstance(a[1], dict) and a[1].get("local") == scrut:
+                                raw_all[0] = True
+                            if a and a[0] == "lit" and isinstance(a[1], int):
+                                raw_lits.add(a[1])
+                        for a in e[4]:
+                            _walk(a, arg)
+                    if e[0] == "call" and e[1] and e[1][0] == "path" and isinstance(e[1][1], dict) and \
+                            ("fmt::format" in e[1][1].get("def", "") or "Arguments" in e[1][1].get("def", "") or "write_fmt" in e[1][1].get("def", "")):
+                        escapes[0] = True
+                    if e[0] == "mcall" and e[1] == "write_fmt":
+                        escapes[0] = True
+                _walk(arm["body"], visit)
+                if raw_all[0]:
+                    passed |= pats
+                    shaped = True
+                passed |= (raw_lits & pats)
+                if escapes[0]:
+                    shaped = True
+                if arm.get("guard") is None:
+                    remaining -= pats
+            if shaped and (best is None or len(passed) > len(best)):
+                best = passed
+    return best
+
+
 def is_name_escaper_by_constants(facts, fid):
     """necessary constants of any name escaper: mentions '#' and formats hex"""
     has_hash = False
